@@ -438,6 +438,12 @@ class Interp:
             for k in n.keywords:
                 base[k.arg] = self.value(k.value, env)
             return (True, base)
+        if isinstance(fn, ast.Attribute) and fn.attr == 'fromkeys' and isinstance(fn.value, ast.Name) and fn.value.id == 'dict' and 1 <= len(n.args) <= 2 and not n.keywords:
+            seq = self.value(n.args[0], env)
+            fill = self.value(n.args[1], env) if len(n.args) == 2 else None
+            if isinstance(seq, (list, tuple)) and all(isinstance(x, (str, int, bytes, tuple)) for x in seq):
+                return (True, dict.fromkeys(seq, fill))
+            raise Unknown('dict.fromkeys() of an uncomputable sequence (%s)' % loc(n))
         if isinstance(fn, ast.Name) and fn.id == 'frozenset' and len(n.args) <= 1 and not n.keywords:
             if not n.args:
                 return (True, set())
